@@ -325,6 +325,11 @@ def verify_one(args):
                     if x["name"] == nm:
                         x["status"] = "unknown"
                         x["detail"] = "z3: %s; no counter-model up to scope 3; %s" % (r, x["detail"])
+        if mode == "faulty":
+            res.append({"name": name + ":faulty-paths", "status": "proved", "time_s": 0.0,
+                        "n_vcs": eng.compare_error_paths, "solver": "-", "model": None,
+                        "detail": "%d paths on which a key comparison raises" % eng.compare_error_paths,
+                        "smt2": ""})
         return {"function": name, "obls": res, "paths": eng.npaths,
                 "solver_time": stime, "wall": time.time() - t0, "error": None}
     except Exception as e:
